@@ -5,6 +5,9 @@ def main(path):
     with open(path) as f:
         r = json.load(f)
     print(json.dumps(r, indent=1)[:6000])
+    if r.get("property") == "C16":
+        from checks import c16
+        c16.replay(r)
     case = r.get("case") or {}
     line = case.get("line")
     if not line and "fn" in case and "input" in case:
